@@ -460,6 +460,18 @@ func c14ManyEval(c *Ctx, cs Case) {
 	args := map[string]string{"ep": ep, "b": cs.S("b"), "at": fmt.Sprint(cs.I("at")), "w": fmt.Sprint(cs.I("w")), "mode": cs.S("mode"),
 		"n": fmt.Sprint(cs.I("n")), "g": fmt.Sprint(cs.I("g")), "reader": cs.S("reader")}
 	res := c14Worker.Do("many."+op, args, 60*time.Second)
+	if op == "concurrent" && (res.Class == "oom" || res.Class == "timeout") {
+		// Sixteen goroutines produce garbage faster than a collector that is starved of CPU frees it: on a machine
+		// that is busy with other work the shared worker (3 GiB of address space) has been seen to run out of memory
+		// or time in this class - on the unchanged library, original harness included. What the class is about is
+		// what the decoders do to each other (a fatal runtime error, a panic, a deadlock); memory kept per input is
+		// the business of the retain class. The case is therefore run once more, alone, in a fresh process with room
+		// (8 GiB of address space) and a collector told to keep the heap small; only that answer is judged.
+		c.Class(op + "/" + ep + "/" + res.Class + "-in-the-shared-worker-retried-alone")
+		w := c.NewWorker(8<<20, "GOMEMLIMIT=1GiB", "GOGC=50")
+		res = w.Do("many."+op, args, 180*time.Second)
+		w.Close()
+	}
 	if res.Class == "not-run" {
 		c.Class(op + "/" + ep + "/not-run-after-timeouts")
 		return
@@ -528,6 +540,7 @@ func c14ModelClass(c *Ctx, ep string, b []byte) string {
 }
 
 var c14Worker *Worker
+var c14LongWorker *Worker // for the long load options of c14ScaleEval
 
 // entry points that take an io.Reader (the others take a *bytes.Buffer, a []byte or a string)
 var c14StreamEps = map[string]bool{"sigdb.read": true, "siglist.read": true, "sigdata.read": true, "auth.read": true, "wincert.read": true,
@@ -599,6 +612,63 @@ func c14Synth(cs Case) []byte {
 			out.Write([]byte{byte(0x41 + i%26), 0})
 		}
 		out.Write([]byte{0, 0})
+	case "long-loadoption":
+		// a load option whose FilePathList is "size" bytes long (FilePathListLength says so): PCI, USB and
+		// hard-drive nodes in turn up to the last "per" bytes of the list, which are ONE node (a vendor-defined
+		// hardware node: header and per-4 data bytes) whose Length field declares "entries" bytes - its own
+		// size, less, or so much that it reaches past the end of the list and past offset 65535; behind the
+		// list "split" bytes of optional data (an end node first when there is room). "var" = 1: the variable
+		// file (four attribute bytes in front).
+		if cs.I("var") == 1 {
+			out.Write([]byte{7, 0, 0, 0})
+		}
+		out.Write([]byte{1, 0, 0, 0, byte(size), byte(size >> 8), 'L', 0, 0, 0})
+		if per < 4 {
+			per = 4
+		}
+		used := 0
+		for i := 0; ; i++ {
+			var node []byte
+			switch i % 3 {
+			case 0:
+				node = []byte{1, 1, 6, 0, byte(i), byte(i >> 8)}
+			case 1:
+				node = []byte{3, 5, 6, 0, byte(i), byte(i >> 8)}
+			default:
+				node = append([]byte{4, 1, 42, 0}, append(word(i, 0), word(i, 1)[:6]...)...)
+				node[4+36], node[4+37] = 2, 2
+			}
+			if used+len(node)+per > size {
+				break
+			}
+			out.Write(node)
+			used += len(node)
+		}
+		// what is left between the regular nodes and the last node: PCI nodes, then (fewer than 6 bytes) it
+		// goes to the last node's data
+		for size-used-per >= 6 {
+			out.Write([]byte{1, 1, 6, 0, 0, 0})
+			used += 6
+		}
+		last := size - used
+		if last >= 4 {
+			sub := byte(4) // vendor-defined hardware node
+			if last == 6 {
+				sub = 1 // a PCI node (two data bytes) whose Length field says something else
+			}
+			out.Write([]byte{1, sub, byte(n), byte(n >> 8)})
+			for k := 4; k < last; k++ {
+				out.WriteByte(byte(0xa0 + k))
+			}
+		}
+		opt := int(cs.I("split"))
+		if opt >= 4 {
+			out.Write([]byte{0x7f, 0xff, 4, 0})
+			opt -= 4
+		}
+		for k := 0; k < opt; k++ {
+			out.WriteByte(byte(k))
+		}
 	}
 	return out.Bytes()
 }
@@ -618,7 +688,17 @@ func c14ScaleEval(c *Ctx, cs Case) {
 		var best wRes
 		bestUs := int64(-1)
 		for try := 0; try < 3; try++ {
-			res := c14Worker.Do(ep, map[string]string{"b": hx(in)}, 20*time.Second)
+			w := c14Worker
+			if cs.S("gen") == "long-loadoption" {
+				// a worker process of their own: what the shared worker has mapped when the later classes
+				// (lifetime, concurrency) run stays what it was
+				if c14LongWorker == nil {
+					c14LongWorker = c.NewWorker(3<<20, "GOMEMLIMIT=2GiB")
+					c14LongWorker.MaxTimeouts = 3
+				}
+				w = c14LongWorker
+			}
+			res := w.Do(ep, map[string]string{"b": hx(in)}, 20*time.Second)
 			us := res.Us
 			if us == 0 {
 				us = res.Ms * 1000
@@ -660,7 +740,7 @@ func c14ScaleEval(c *Ctx, cs Case) {
 	if us > timeBudgetUs(len(b)) {
 		fail(fmt.Sprintf("took %d µs for a %d-byte input (limit %d µs: time must be proportional to the input size)", us, len(b), timeBudgetUs(len(b))))
 	}
-	if split := cs.I("split"); split > 0 {
+	if split := cs.I("split"); split > 0 && strings.HasSuffix(cs.S("gen"), "-lists") {
 		twin := Case{}
 		for k, v := range cs {
 			twin[k] = v
@@ -767,6 +847,10 @@ func c14Gen(c *Ctx) {
 			c14Worker.Close()
 			c14Worker = nil
 		}
+		if c14LongWorker != nil {
+			c14LongWorker.Close()
+			c14LongWorker = nil
+		}
 	}()
 	emit := func(ep, class, site string, b []byte) {
 		if c.NFailures() < 40 {
@@ -832,6 +916,51 @@ func c14Gen(c *Ctx) {
 	scale("supportedsigs", "guids", "", c.P(20000, 100000), 0, 0)
 	scale("devicepath", "nodes", "ok", c.P(20000, 100000), 0, 0)
 	scale("utf16", "utf16", "ok", c.P(200000, 2000000), 0, 0)
+	// load options whose FilePathList is as long as the 16-bit FilePathListLength allows (and half, and a quarter
+	// of that): the list is filled with regular nodes and ends in ONE node whose Length field is exact, too small,
+	// or reaches past the end of the list - by one byte, by a few, up to offset 65535, just past it (where 16-bit
+	// offset arithmetic wraps) and as far as a Length can say -, with nothing, an end node or more optional data
+	// behind the list; through Unmarshal, the two exported parsers and the two boot-entry getters. Built from
+	// the description (the case holds six numbers). Time and memory must follow the ~64 KiB of input.
+	{
+		type ll struct{ size, last, length, behind int }
+		var lls []ll
+		sizes := []int{65535, 65532, 65529, 32768}
+		if c.Thorough {
+			sizes = []int{65535, 65534, 65533, 65532, 65531, 65530, 65529, 65528, 65520, 49152, 32768, 32767, 16384}
+		}
+		for _, size := range sizes {
+			for _, last := range []int{4, 6, 9} {
+				for _, length := range []int{last, 4, last + 1, last + 7, 65535 - (size - last), 65536 - (size - last), 65536 - (size - last) + 6, 65536 - (size - last) + 48, 0xffff} {
+					if length < 0 || length > 0xffff {
+						continue
+					}
+					for _, behind := range []int{0, 4, 64} {
+						if !c.Thorough && behind == 4 && size != 65535 {
+							continue
+						}
+						lls = append(lls, ll{size, last, length, behind})
+					}
+				}
+			}
+		}
+		eps := []string{"loadoption", "loadoption.parsers", "store.get/Boot0001", "legacy.get/Boot0001"}
+		for i, x := range lls {
+			// quick tier: every description on one entry point in turn; thorough: on all
+			for j, ep := range eps {
+				if !c.Thorough && (i+j)%len(eps) != 0 && !(j == 0 && x.size >= 65529 && x.behind == 0) {
+					continue
+				}
+				if c.NFailures() < 6 { // a decoder that hangs on these costs seconds per case
+					v := 0
+					if strings.Contains(ep, ".get/") {
+						v = 1
+					}
+					c14Eval(c, Case{"op": "scale", "ep": ep, "gen": "long-loadoption", "want": "", "entries": x.length, "size": x.size, "per": x.last, "split": x.behind, "var": v})
+				}
+			}
+		}
+	}
 	scale("efistring", "utf16", "ok", c.P(200000, 2000000), 0, 0)
 	for _, sz := range []uint32{0, 1, 15, 16, 17, 48, 1 << 20, 1 << 31, 0xffffffff} {
 		for _, n := range []int{0, 8, 16, 17, 48, 100} {
@@ -1312,7 +1441,7 @@ func encryptedPKCS8Shape(c *Ctx, n int) []byte {
 
 func init() {
 	register("C14", &PropDef{
-		Rule:   "19 decoder entry points (ReadSignatureDatabase/List/Data, ReadEFIVariableAuthencation2, ReadWinCertificate(UEFIGUID), EFILoadOption.Unmarshal + Format, ParseDevicePath + Format, ParseUtf16Var, Efistring, boot order, GetSupportedSignatures, ParseEfivars, StringToGUID, BytesToGUID, ReadKey, ReadCert, ReadKeyFromFile, ReadCertFromFile) and the other public entry points that decode the same contents - SignatureDatabase.Unmarshal and EFIVariableAuthentication2.Unmarshal (same sweeps as the Read* functions), ParseEFILoadOption followed by ParseDevicePath (same sweeps as EFILoadOption.Unmarshal), the exported ParseMediaDevicePath (every subtype x body lengths 0..39 x declared lengths 0/3/4/exact/0xffff), ReadNullString, the 9 variable getters of the store object (Efivarfs.GetPK/GetKEK/Getdb/Getdbx/GetSetupMode/GetSecureBoot/GetBootOrder/GetBootEntry/GetLoaderEntrySelected over the in-memory test store) and their 9 package-level twins (efi.GetPK ... efi.GetBootEntry, efi.GetCurrentlyBootedEntry over fs.SetFS), whose input is the variable FILE (files of 0..4 bytes, attributes that do not match, random values, and per kind: lists with every size field swept and cut, boolean values of 0..3 bytes, boot orders of 0..7 bytes, load options cut / without end node / byte-mutated, UTF-16 edge cases), and a value written to a secure-boot variable of the in-memory test store (TestFS.WriteVar looks for a descriptor in front of it: descriptors cut everywhere, every dwLength class, lists, random bytes) - run in a sandboxed worker process (address-space limit, per-input timeout, runtime.MemStats.TotalAlloc delta). The 11 entry points that take an io.Reader get every input through one of 8 reader kinds chosen by a hash of the case (bytes.Reader, bytes.Buffer, bufio.Reader, io.SectionReader, an open os.File, io.Pipe, a reader with no method but Read, a one-byte reader). Inputs: every size field of lists / descriptors / certificates swept over {0,1,7,8,15,16,17,23,24,27,28,29,2^16,2^24,2^31,2^32-1,...}, consistent headers promising one 2 GiB signature or 2^12..2^26 signatures of the list's own size, every truncation point, captured and generated load options cut everywhere / without end node / byte-mutated, every device-path (type, subtype) with 0..38 bytes of data and with a declared node Length of 0..3 (below the 4-byte node header) / exact / 0xffff, every node Length of the captured and generated load options set to 0..3, +-1 and 0xffff, every partition-format byte, size scaling (one signature list of 4096 and of 20000 SHA-256 entries [thorough: 16384 / 80000], 1000 / 5000 certificate-sized entries in one list, each also split into lists of 64 / 16 entries of the same total size; a boot order of 30000 entries, 20000 GUIDs, a device path of 20000 nodes, a string of 200000 characters: time <= 0.5 s + 1 µs/byte, memory budget, and one-list time <= 8 x split time + 0.1 s, best of 3 runs), UTF-16 edge cases, random short inputs, PEM material cut and mutated, files with several PEM blocks (key+certificate in both orders, unknown block types, headers, text around the blocks, empty blocks); WELL-FORMED key files of every kind made for the run - RSA, ECDSA P-224/P-256/P-384/P-521, Ed25519, X25519 and ECDH keys in PKCS #8, RSA in PKCS #1, ECDSA in SEC 1 (also after an EC PARAMETERS block), each encoding also under the PEM label of another one, legacy encrypted PEM (Proc-Type/DEK-Info headers), PKCS #8 ENCRYPTED PRIVATE KEY, public keys, a certificate request, self-signed certificates of every signing key kind - each given to the key AND the certificate decoder in memory and as a file on disk, whole, cut at 12 [thorough: 60] points, before and after a certificate and after text. Lifetime of the process: for 26 input families (GUID text in four spellings, GUID bytes, signature lists / data, descriptors, WIN_CERTIFICATEs, hard-drive load options and paths, descriptions, strings, boot orders, GUID lists, attribute files, PEM certificates and keys with varying text before / inside the block) one worker process decodes 4 x 2500 DIFFERENT inputs of the family one after the other [X.509 / PKCS #8 / boot order: 4 x 500; thorough: x 10] and the live heap after garbage collection may gain at most 32 KiB + 4 bytes per call between the 2500th and the 10000th input (nothing may be kept per distinct input seen), and decodes 8 x 1250 inputs on 8 goroutines at once [thorough: 16 goroutines], half of them the goroutine's own and half common to all (normal build, no race detector): the worker must survive - a recovered panic, a fatal runtime error (concurrent map writes) or any other death of the worker is a violation reported with the family. Non-trivial: non-empty input; distinct = distinct (entry point, input). Static part: the call-graph certificate (see the Lean obligations).",
+		Rule:   "19 decoder entry points (ReadSignatureDatabase/List/Data, ReadEFIVariableAuthencation2, ReadWinCertificate(UEFIGUID), EFILoadOption.Unmarshal + Format, ParseDevicePath + Format, ParseUtf16Var, Efistring, boot order, GetSupportedSignatures, ParseEfivars, StringToGUID, BytesToGUID, ReadKey, ReadCert, ReadKeyFromFile, ReadCertFromFile) and the other public entry points that decode the same contents - SignatureDatabase.Unmarshal and EFIVariableAuthentication2.Unmarshal (same sweeps as the Read* functions), ParseEFILoadOption followed by ParseDevicePath (same sweeps as EFILoadOption.Unmarshal), the exported ParseMediaDevicePath (every subtype x body lengths 0..39 x declared lengths 0/3/4/exact/0xffff), ReadNullString, the 9 variable getters of the store object (Efivarfs.GetPK/GetKEK/Getdb/Getdbx/GetSetupMode/GetSecureBoot/GetBootOrder/GetBootEntry/GetLoaderEntrySelected over the in-memory test store) and their 9 package-level twins (efi.GetPK ... efi.GetBootEntry, efi.GetCurrentlyBootedEntry over fs.SetFS), whose input is the variable FILE (files of 0..4 bytes, attributes that do not match, random values, and per kind: lists with every size field swept and cut, boolean values of 0..3 bytes, boot orders of 0..7 bytes, load options cut / without end node / byte-mutated, UTF-16 edge cases), and a value written to a secure-boot variable of the in-memory test store (TestFS.WriteVar looks for a descriptor in front of it: descriptors cut everywhere, every dwLength class, lists, random bytes) - run in a sandboxed worker process (address-space limit, per-input timeout, runtime.MemStats.TotalAlloc delta). The 11 entry points that take an io.Reader get every input through one of 8 reader kinds chosen by a hash of the case (bytes.Reader, bytes.Buffer, bufio.Reader, io.SectionReader, an open os.File, io.Pipe, a reader with no method but Read, a one-byte reader). Inputs: every size field of lists / descriptors / certificates swept over {0,1,7,8,15,16,17,23,24,27,28,29,2^16,2^24,2^31,2^32-1,...}, consistent headers promising one 2 GiB signature or 2^12..2^26 signatures of the list's own size, every truncation point, captured and generated load options cut everywhere / without end node / byte-mutated, every device-path (type, subtype) with 0..38 bytes of data and with a declared node Length of 0..3 (below the 4-byte node header) / exact / 0xffff, every node Length of the captured and generated load options set to 0..3, +-1 and 0xffff, every partition-format byte, size scaling (one signature list of 4096 and of 20000 SHA-256 entries [thorough: 16384 / 80000], 1000 / 5000 certificate-sized entries in one list, each also split into lists of 64 / 16 entries of the same total size; a boot order of 30000 entries, 20000 GUIDs, a device path of 20000 nodes, a string of 200000 characters: time <= 0.5 s + 1 µs/byte, memory budget, and one-list time <= 8 x split time + 0.1 s, best of 3 runs), UTF-16 edge cases, random short inputs, PEM material cut and mutated, files with several PEM blocks (key+certificate in both orders, unknown block types, headers, text around the blocks, empty blocks); WELL-FORMED key files of every kind made for the run - RSA, ECDSA P-224/P-256/P-384/P-521, Ed25519, X25519 and ECDH keys in PKCS #8, RSA in PKCS #1, ECDSA in SEC 1 (also after an EC PARAMETERS block), each encoding also under the PEM label of another one, legacy encrypted PEM (Proc-Type/DEK-Info headers), PKCS #8 ENCRYPTED PRIVATE KEY, public keys, a certificate request, self-signed certificates of every signing key kind - each given to the key AND the certificate decoder in memory and as a file on disk, whole, cut at 12 [thorough: 60] points, before and after a certificate and after text. Load options whose FilePathList is as long as the 16-bit FilePathListLength allows (65535, 65532, 65529 bytes, and 32768) [thorough: 13 lengths from 16384 to 65535], built from a description: regular PCI / USB / hard-drive nodes and ONE last node (vendor-defined, or a PCI node) whose Length field is exact, 4, too long by 1 or 7, reaches exactly to offset 65535, just past it (by 0, 6, 48: where 16-bit offset arithmetic wraps) or is 0xffff, with nothing, an end node or 64 bytes behind the list - through EFILoadOption.Unmarshal, ParseEFILoadOption+ParseDevicePath, Efivarfs.GetBootEntry and efi.GetBootEntry (quick: each description on one of the four in turn, the longest lists all on Unmarshal) - must come back within 1 us per byte + 0.5 s and 64 bytes allocated per input byte + 2 MiB. Lifetime of the process: for 26 input families (GUID text in four spellings, GUID bytes, signature lists / data, descriptors, WIN_CERTIFICATEs, hard-drive load options and paths, descriptions, strings, boot orders, GUID lists, attribute files, PEM certificates and keys with varying text before / inside the block) one worker process decodes 4 x 2500 DIFFERENT inputs of the family one after the other [X.509 / PKCS #8 / boot order: 4 x 500; thorough: x 10] and the live heap after garbage collection may gain at most 32 KiB + 4 bytes per call between the 2500th and the 10000th input (nothing may be kept per distinct input seen), and decodes 8 x 1250 inputs on 8 goroutines at once [thorough: 16 goroutines], half of them the goroutine's own and half common to all (normal build, no race detector): the worker must survive - a recovered panic, a fatal runtime error (concurrent map writes) or any other death of the worker is a violation reported with the family. Non-trivial: non-empty input; distinct = distinct (entry point, input). Static part: the call-graph certificate (see the Lean obligations).",
 		Assume: []string{"allocation budget 64 bytes per input byte + 2 MiB; time limit 3 s per input; for the large regular inputs 0.5 s + 1 µs per byte and at most 8 x the time of the same entries split into short lists + 0.1 s", "wall-clock time and resident memory are runtime facts measured on the sampled inputs only"},
 		Eval:   c14Eval, Gen: c14Gen,
 	})
